@@ -4,9 +4,9 @@ from checks import ebpf as B
 from checks.interp_common import Case, parse_answer
 from checks import C02
 
-UNITS = ['Clir']
+UNITS = ['Opcodes', 'Clir', 'ClMem']
 MODELS = ['theories/ClirSem.vo', 'gen/Clir.vo']
-PROOFS = ['theories/ClirProofs.v']
+PROOFS = ['theories/ClirProofs.v', 'theories/ClMemProofs.v']
 
 HEADER = '''From Coq Require Import ZArith List Bool.
 From RbpfV Require Import MachInt ClirSem.
